@@ -361,3 +361,59 @@ Proof.
     + rewrite get_cons, lookup_set_same. apply IH; [|discriminate]. eapply wf_lookup; eauto.
     + rewrite get_cons, L. reflexivity.
 Qed.
+
+(* ---- a deletion commutes with a change at an unrelated place ---------------------------------------- *)
+
+(* replacing / deleting the entry a commutes with any change of another entry b, unless a is appended *)
+Lemma set_entry_comm es a b v w :
+  str_eqb a b = false -> (v = None \/ exists y, lookup es a = Some y) ->
+  set_entry (set_entry es b w) a v = set_entry (set_entry es a v) b w.
+Proof.
+  intros N C. induction es as [|[k u] t IH].
+  - destruct C as [->|[y Y]]; [|discriminate]. simpl.
+    destruct w; simpl; [rewrite str_eqb_sym, N|]; reflexivity.
+  - simpl. destruct (str_eqb k b) eqn:Eb; destruct (str_eqb k a) eqn:Ea.
+    + apply str_eqb_eq in Eb. apply str_eqb_eq in Ea. subst. rewrite str_eqb_refl in N. discriminate.
+    + destruct w; simpl; rewrite ?Ea, ?Eb; reflexivity.
+    + simpl. rewrite Ea. destruct v; simpl; rewrite ?Eb; reflexivity.
+    + simpl. rewrite Ea, Eb. rewrite IH; [reflexivity|].
+      destruct C as [C|[y Y]]; [left; exact C|right]. simpl in Y. rewrite Ea in Y. eauto.
+Qed.
+
+(* the entry an update of (NDir es) at c :: p writes *)
+Definition child_after (es : list (str * node)) (c : str) (p : cpath) (v : option node) : option node :=
+  match p with
+  | [] => v
+  | _ => match lookup es c with Some ch => Some (upd ch p v) | None => None end
+  end.
+
+Lemma upd_dir es c p v : upd (NDir es) (c :: p) v = NDir (set_entry es c (child_after es c p v)).
+Proof.
+  destruct p as [|d p]; [reflexivity|]. rewrite upd_deep. unfold child_after.
+  destruct (lookup es c) eqn:L; [reflexivity|]. rewrite set_none_absent by auto. reflexivity.
+Qed.
+
+Lemma upd_none_comm p : forall r q w,
+  is_prefix p q = false -> is_prefix q p = false ->
+  upd (upd r q w) p None = upd (upd r p None) q w.
+Proof.
+  induction p as [|a p IH]; intros r q w H1 H2; [discriminate|].
+  destruct q as [|b q]; [discriminate|].
+  destruct r as [f|es|t]; try reflexivity.
+  rewrite (upd_dir es b q w), (upd_dir es a p None), !upd_dir.
+  simpl in H1, H2. destruct (str_eqb a b) eqn:E.
+  - apply str_eqb_eq in E. subst b. rewrite str_eqb_refl in H2. simpl in H1, H2.
+    assert (Hp : p <> []) by (intros ->; destruct q; discriminate).
+    assert (Hq : q <> []) by (intros ->; destruct p; discriminate).
+    unfold child_after. destruct p as [|p0 p']; [contradiction|]. destruct q as [|q0 q']; [contradiction|].
+    destruct (lookup es a) as [ch|] eqn:L.
+    + rewrite !lookup_set_same, !set_set. rewrite (IH ch (q0 :: q') w) by auto. reflexivity.
+    + rewrite !set_none_absent by auto. rewrite L. rewrite !set_none_absent by auto. reflexivity.
+  - assert (E' : str_eqb b a = false) by (rewrite str_eqb_sym; exact E).
+    assert (C1 : child_after (set_entry es b (child_after es b q w)) a p None = child_after es a p None).
+    { unfold child_after. destruct p; auto. rewrite lookup_set_other by auto. reflexivity. }
+    assert (C2 : child_after (set_entry es a (child_after es a p None)) b q w = child_after es b q w).
+    { unfold child_after at 1 3. destruct q; auto. rewrite lookup_set_other by auto. reflexivity. }
+    rewrite C1, C2. f_equal. apply set_entry_comm; auto.
+    unfold child_after. destruct p; auto. destruct (lookup es a); eauto.
+Qed.
